@@ -58,7 +58,9 @@ impl HandlerErased for Custom {
 }
 
 /// every built-in handler kind, each in an inline flavour (suffix "") and a blocking flavour (suffix "B")
-pub fn build_router(log: &Arc<Log>) -> Router {
+pub fn build_router(log: &Arc<Log>) -> Router { build_router_mw(log, true) }
+/// with_mw = false: no middleware, so that requests take the borrowing (view) dispatch path where a handler has one
+pub fn build_router_mw(log: &Arc<Log>, with_mw: bool) -> Router {
     let reg = Arc::new(Registry::new());
     reg.register_value("/v", json!({"k": 1})).unwrap();
     let mk = |tag: &'static str| {
@@ -67,12 +69,14 @@ pub fn build_router(log: &Arc<Log>) -> Router {
     };
     let (a, b, c, d, e, f, g, h, i, j) = (mk("json"), mk("jsonerr"), mk("typed"), mk("ctx"), mk("slice"), mk("sliceref"), mk("json"), mk("jsonerr"), mk("typed"), mk("ctx"));
     let k = mk("mw");
-    Router::new()
-        .with_middleware(move |req: &Message, next: repe::server::Next<'_>| {
+    let base = if with_mw {
+        Router::new().with_middleware(move |req: &Message, next: repe::server::Next<'_>| {
             // a forwarding middleware in front of every route
             let _ = &k;
             next.run(req)
         })
+    } else { Router::new() };
+    base
         .with_json("/json", move |v| { a(); Ok(json!({"echo": v})) })
         .with_json("/jsonerr", move |_v| { b(); Err((ErrorCode::ApplicationErrorBase, "nope".to_string())) })
         .with_typed::<In, In, _>("/typed", move |x: In| { c(); Ok(In { a: x.a + 1 }) })
@@ -116,6 +120,9 @@ fn classes() -> Vec<Class> {
         c("handler_error", "/jsonerr", true, 1, 2, br#"{"a":5}"#),
         c("typed_ok", "/typed", true, 1, 2, br#"{"a":5}"#),
         c("typed_shape", "/typed", true, 1, 2, br#"[1,2]"#),
+        c("typed_trailing", "/typed", true, 1, 2, br#"{"a":5}{"a":6}"#),
+        c("typed_trailing_utf8", "/typed", true, 1, 3, br#"{"a":5} ]"#),
+        c("json_trailing", "/json", true, 1, 2, br#"{"a":5} x"#),
         c("ctx_ok", "/ctx", true, 1, 2, br#"{"a":5}"#),
         c("slice_ok", "/slice", false, 1, 1, &f64s),
         c("slice_wrongtype", "/slice", false, 1, 1, &i32s),
@@ -236,6 +243,47 @@ fn run_ws_stalled(addr: std::net::SocketAddr, frames: &[Vec<u8>], expect: usize,
     idle
 }
 
+/// C02 on the wire: a server with a read timeout gets junk bytes, a stall longer than the timeout, then a valid frame.
+/// The 48 bytes the server has to judge start with the junk: nothing may be dispatched.
+pub fn c02_timeouts(a: &Args) -> i32 {
+    let rt = tokio::runtime::Builder::new_multi_thread().worker_threads(2).enable_all().build().unwrap();
+    let mut cases = vec![];
+    for kind in ["server", "async_server"] {
+        for junk in [1usize, 10, 47] {
+            let hits = Arc::new(AtomicU64::new(0));
+            let h2 = hits.clone();
+            let router = Router::new().with_json("/json", move |v| { h2.fetch_add(1, Ordering::SeqCst); Ok(v) });
+            let addr = if kind == "server" {
+                let l = std::net::TcpListener::bind("127.0.0.1:0").unwrap();
+                let addr = l.local_addr().unwrap();
+                std::thread::spawn(move || { let _ = Server::new(router).read_timeout(Some(Duration::from_millis(100))).serve(l); });
+                addr
+            } else {
+                let l = rt.block_on(AsyncServer::listen("127.0.0.1:0")).unwrap();
+                let addr = l.local_addr().unwrap();
+                rt.spawn(async move { let _ = AsyncServer::new(router).read_timeout(Some(Duration::from_millis(100))).serve(l).await; });
+                addr
+            };
+            std::thread::sleep(Duration::from_millis(20));
+            let mut s = TcpStream::connect(addr).unwrap();
+            s.set_nodelay(true).ok();
+            let _ = s.write_all(&vec![0xEEu8; junk]);
+            std::thread::sleep(Duration::from_millis(450));
+            let mut m = Message::builder().id(77).query_str("/json").body_json(&json!({"a": 5})).unwrap().build();
+            m.header.query_format = 1;
+            let wrote = s.write_all(&m.to_vec()).is_ok();
+            s.set_read_timeout(Some(Duration::from_millis(500))).ok();
+            let mut buf = vec![0u8; 4096];
+            let got = s.read(&mut buf).unwrap_or(0);
+            std::thread::sleep(Duration::from_millis(50));
+            cases.push(json!({"server": kind, "junk": junk, "write_ok": wrote, "response_bytes": got, "dispatched": hits.load(Ordering::SeqCst)}));
+        }
+    }
+    util::write_json(&a.req("out"), &json!({"cases": cases}));
+    rt.shutdown_timeout(Duration::from_secs(1));
+    0
+}
+
 pub fn c03(a: &Args) -> i32 {
     let seed = a.u64("seed", 1);
     let nseq = a.usize("sequences", 12);
@@ -250,7 +298,7 @@ pub fn c03(a: &Args) -> i32 {
     std::thread::spawn(move || {
         let _ = Server::new(r1).serve(l1);
     });
-    let r2 = build_router(&log);
+    let r2 = build_router_mw(&log, false);
     let l2 = rt.block_on(AsyncServer::listen("127.0.0.1:0")).unwrap();
     let async_addr = l2.local_addr().unwrap();
     rt.spawn(async move {
@@ -259,7 +307,7 @@ pub fn c03(a: &Args) -> i32 {
     // the same two TCP servers with their timeouts configured (separate code paths for reading and writing)
     let l1t = std::net::TcpListener::bind("127.0.0.1:0").unwrap();
     let tcp_t_addr = l1t.local_addr().unwrap();
-    let r1t = build_router(&log);
+    let r1t = build_router_mw(&log, false);
     std::thread::spawn(move || {
         let _ = Server::new(r1t).read_timeout(Some(Duration::from_secs(20))).write_timeout(Some(Duration::from_secs(20))).serve(l1t);
     });
